@@ -197,6 +197,12 @@ static std::string do_sh(const std::vector<std::string>& w) {
   std::string head = (ee == Error::kOk) ? std::string("ok") : err_name(ee);
   head += " sa=" + std::to_string(frame.sa_reg_id()) + "." + std::to_string(frame.has_dynamic_alignment() ? 1 : 0) + "." +
           std::to_string(frame.sa_offset(frame.sa_reg_id()));
+  // what emit_args_assignment reads of the frame (inputs of the Lean model)
+  head += " fr=" + std::to_string(frame.has_preserved_fp() ? 1 : 0) + "." + std::to_string(frame.has_dynamic_alignment() ? 1 : 0) + "." +
+          std::to_string(frame.sa_reg_id()) + "." + std::to_string(int32_t(frame.sa_offset_from_sp())) + "." +
+          std::to_string(int32_t(frame.sa_offset_from_sa()));
+  for (uint32_t g = 0; g < 4; g++) head += "." + std::to_string(frame.dirty_regs(RegGroup(g)));
+  for (uint32_t g = 0; g < 4; g++) head += "." + std::to_string(frame.preserved_regs(RegGroup(g)));
   return head + " | " + insts;
 }
 
